@@ -3,10 +3,10 @@ import Asn1Proofs.Lemmas.CostPer
   C08 for the ALIGNED PER model: the allocation bound of `Per.dec`, leaf types and SEQUENCE OF (the
   composite types and the induction over the universe are in `CostPerComp.lean`),
 
-      nodes of the value ≤ KP t * (N + 1) ^ rewinds t * (bits consumed + 1)        (N ≥ remaining bits)
+      nodes of the value ≤ KP t * (bits consumed + 1)
 
-  The factor `(N + 1) ^ rewinds t` is 1 for every type without a rewinding CHOICE; it cannot be
-  avoided otherwise (`CostPerNeg.lean`).
+  for every type (since repair ace6523 of /repo no reader moves the position backwards; the factor
+  `(N + 1) ^ rewinds t` of the earlier version of this file is gone).
 -/
 set_option linter.unusedSimpArgs false
 set_option linter.unusedVariables false
@@ -16,14 +16,14 @@ open Asn1.Uper (DecM Err bind_ok sizeBits utf8Dec charDecode sortByVal)
 open Asn1.Cost (sumSize presenceNodes nodesFields_append sumSize_nodes)
 
 /-- cost predicate of the decoder of `t` -/
-def SzP (t : Ty) : Prop := ∀ f N, BdP Val.nodes (KP t * (N + 1) ^ rewinds t) N (dec t f)
+def SzP (t : Ty) : Prop := ∀ f, BdP Val.nodes (KP t) (dec t f)
 
 /-- closes the size part of a leaf type -/
 macro "leaf_close" : tactic =>
-  `(tactic| (simp only [KP, rewinds, Nat.pow_zero, Nat.mul_one, Nat.one_mul, Val.nodes]; omega))
+  `(tactic| (simp only [KP, Nat.one_mul, Val.nodes]; omega))
 
 theorem szp_boolean : SzP .boolean := by
-  intro f N s v r h hN
+  intro f s v r h
   rw [dec] at h
   obtain ⟨⟨b, r1⟩, h1, h⟩ := bind_ok h
   try dsimp only at h
@@ -33,14 +33,14 @@ theorem szp_boolean : SzP .boolean := by
   leaf_close
 
 theorem szp_null : SzP .null := by
-  intro f N s v r h hN
+  intro f s v r h
   rw [dec] at h
   cases h
   refine ⟨by omega, ?_⟩
   leaf_close
 
 theorem szp_integer (c : IntC) : SzP (.integer c) := by
-  intro f N s v r h hN
+  intro f s v r h
   have ha := align_le s
   rw [dec] at h
   revert h
@@ -101,7 +101,7 @@ theorem bitsPerChar_pos (k : StrKind) (hk : k ≠ .utf8) : 1 ≤ bitsPerChar k :
 
 theorem szp_enumerated (root : List (String × Int)) (ext : Option (List (String × Int))) :
     SzP (.enumerated root ext) := by
-  intro f N s v r h hN
+  intro f s v r h
   have hroot : ∀ (s : St) (v : Val) (r : St),
       (do
         let (i, r) ← readNat (bitLength ((sortByVal root).length - 1)) s
@@ -124,7 +124,7 @@ theorem szp_enumerated (root : List (String × Int)) (ext : Option (List (String
     try dsimp only at h
     obtain ⟨h1, h2⟩ := hroot s v r h
     refine ⟨h1, ?_⟩
-    simp only [KP, rewinds, Nat.pow_zero, Nat.mul_one, h2]; omega
+    simp only [KP, h2]; omega
   | some adds =>
     rw [dec] at h
     try dsimp only at h
@@ -137,7 +137,7 @@ theorem szp_enumerated (root : List (String × Int)) (ext : Option (List (String
     · intro h
       obtain ⟨h1, h2⟩ := hroot r1 v r h
       refine ⟨by omega, ?_⟩
-      simp only [KP, rewinds, Nat.pow_zero, Nat.mul_one, h2]; omega
+      simp only [KP, h2]; omega
     · intro h
       obtain ⟨⟨i, r2⟩, h2, h⟩ := bind_ok h
       try dsimp only at h
@@ -147,7 +147,7 @@ theorem szp_enumerated (root : List (String × Int)) (ext : Option (List (String
       split <;> (intro h; cases h; refine ⟨by omega, ?_⟩; leaf_close)
 
 theorem szp_octetString (c : SizeC) : SzP (.octetString c) := by
-  intro f N s v r h hN
+  intro f s v r h
   rw [dec] at h
   obtain ⟨⟨ext, r0⟩, h0, h⟩ := bind_ok h
   try dsimp only at h
@@ -165,7 +165,7 @@ theorem szp_octetString (c : SizeC) : SzP (.octetString c) := by
     obtain ⟨hl2, hb⟩ := readBits_ok h2
     cases h
     refine ⟨by omega, ?_⟩
-    simp only [KP, rewinds, Nat.pow_zero, Nat.mul_one, Nat.one_mul, Val.nodes, packBits_length, hb]
+    simp only [KP, Nat.one_mul, Val.nodes, packBits_length, hb]
     omega
   · split
     · intro h
@@ -174,7 +174,7 @@ theorem szp_octetString (c : SizeC) : SzP (.octetString c) := by
       have := decChunksBits_ok 8 f h1
       cases h
       refine ⟨by omega, ?_⟩
-      simp only [KP, rewinds, Nat.pow_zero, Nat.mul_one, Nat.one_mul, Val.nodes, packBits_length]
+      simp only [KP, Nat.one_mul, Val.nodes, packBits_length]
       omega
     · intro h
       obtain ⟨⟨len, r1⟩, h1, h⟩ := bind_ok h
@@ -185,11 +185,11 @@ theorem szp_octetString (c : SizeC) : SzP (.octetString c) := by
       obtain ⟨hl2, hb⟩ := readBits_ok h2
       cases h
       refine ⟨by omega, ?_⟩
-      simp only [KP, rewinds, Nat.pow_zero, Nat.mul_one, Nat.one_mul, Val.nodes, packBits_length, hb]
+      simp only [KP, Nat.one_mul, Val.nodes, packBits_length, hb]
       omega
 
 theorem szp_bitString (c : SizeC) : SzP (.bitString c) := by
-  intro f N s v r h hN
+  intro f s v r h
   rw [dec] at h
   obtain ⟨⟨ext, r0⟩, h0, h⟩ := bind_ok h
   try dsimp only at h
@@ -206,7 +206,7 @@ theorem szp_bitString (c : SizeC) : SzP (.bitString c) := by
       have := decChunksBits_ok 1 f h1
       cases h
       refine ⟨by omega, ?_⟩
-      simp only [KP, rewinds, Nat.pow_zero, Nat.mul_one, Nat.one_mul, Val.nodes, packBits_length]
+      simp only [KP, Nat.one_mul, Val.nodes, packBits_length]
       omega
     · intro h
       obtain ⟨⟨len, r1⟩, h1, h⟩ := bind_ok h
@@ -217,11 +217,11 @@ theorem szp_bitString (c : SizeC) : SzP (.bitString c) := by
       obtain ⟨hl2, hb⟩ := readBits_ok h2
       cases h
       refine ⟨by omega, ?_⟩
-      simp only [KP, rewinds, Nat.pow_zero, Nat.mul_one, Nat.one_mul, Val.nodes, packBits_length, hb]
+      simp only [KP, Nat.one_mul, Val.nodes, packBits_length, hb]
       omega
 
 theorem szp_utf8 (c : SizeC) : SzP (.charString .utf8 c) := by
-  intro f N s v r h hN
+  intro f s v r h
   have ha := align_le s
   rw [dec] at h
   obtain ⟨⟨xs, r1⟩, h1, h⟩ := bind_ok h
@@ -235,7 +235,7 @@ theorem szp_utf8 (c : SizeC) : SzP (.charString .utf8 c) := by
     have := Cost.utf8Dec_length _ _ _ hu
     rw [packBits_length] at this
     refine ⟨by omega, ?_⟩
-    simp only [KP, rewinds, Nat.pow_zero, Nat.mul_one, Nat.one_mul, Val.nodes]; omega
+    simp only [KP, Nat.one_mul, Val.nodes]; omega
   · intro h; cases h
 
 theorem one_ok (k : StrKind) (hk : k ≠ .utf8) (s : St) (a : Nat) (r : St)
@@ -251,7 +251,7 @@ theorem one_ok (k : StrKind) (hk : k ≠ .utf8) (s : St) (a : Nat) (r : St)
   cases h; omega
 
 theorem szp_charString (k : StrKind) (hk : k ≠ .utf8) (c : SizeC) : SzP (.charString k c) := by
-  intro f N s v r h hN
+  intro f s v r h
   rw [dec] at h
   · obtain ⟨⟨ext, r0⟩, h0, h⟩ := bind_ok h
     have hl0 := optBit_ok h0
@@ -267,7 +267,7 @@ theorem szp_charString (k : StrKind) (hk : k ≠ .utf8) (c : SizeC) : SzP (.char
         have := decChunks_len (one_ok k hk) f h1
         cases h
         refine ⟨by omega, ?_⟩
-        simp only [KP, rewinds, Nat.pow_zero, Nat.mul_one, Nat.one_mul, Val.nodes]; omega
+        simp only [KP, Nat.one_mul, Val.nodes]; omega
       · intro h
         obtain ⟨⟨len, r1⟩, h1, h⟩ := bind_ok h
         try dsimp only at h
@@ -277,7 +277,7 @@ theorem szp_charString (k : StrKind) (hk : k ≠ .utf8) (c : SizeC) : SzP (.char
         obtain ⟨hn, hx⟩ := decRepeat_len (one_ok k hk) len h2
         cases h
         refine ⟨by omega, ?_⟩
-        simp only [KP, rewinds, Nat.pow_zero, Nat.mul_one, Nat.one_mul, Val.nodes]; omega
+        simp only [KP, Nat.one_mul, Val.nodes]; omega
   all_goals (first | exact hk | (intro c' heq; cases heq; exact hk rfl))
 
 /-! ### composite types -/
@@ -291,18 +291,8 @@ theorem seqOfMaxP_sized {c : SizeC} {w : Nat} (h : sizeBits c = some w) :
     c.lo + 2 ^ w + 65536 ≤ seqOfMaxP c := by
   unfold seqOfMaxP; rw [h]; exact Nat.le_max_right _ _
 
-theorem seqOf_arithP {K M P c c1 c2 n s : Nat} (hP : 1 ≤ P) (hs : s ≤ K * P * (c1 + n))
-    (hn : n ≤ M * (c2 + 1)) (h1 : c1 ≤ c) (h2 : c2 ≤ c) :
-    1 + s ≤ (1 + K * (1 + M)) * P * (c + 1) := by
-  have a := Cost.seqOf_arith (K := K * P) hs hn h1 h2
-  refine Nat.le_trans a (Nat.mul_le_mul_right _ ?_)
-  have e : K * P * (1 + M) = K * (1 + M) * P := Nat.mul_right_comm K P (1 + M)
-  rw [e]
-  exact absorb hP
-
 theorem szp_sequenceOf (e : Ty) (c : SizeC) (ih : SzP e) : SzP (.sequenceOf e c) := by
-  intro f N s v r h hN
-  have hP := pw_pos N (rewinds e)
+  intro f s v r h
   rw [dec] at h
   obtain ⟨⟨ext, r0⟩, h0, h⟩ := bind_ok h
   try dsimp only at h
@@ -317,27 +307,27 @@ theorem szp_sequenceOf (e : Ty) (c : SizeC) (ih : SzP e) : SzP (.sequenceOf e c)
     obtain ⟨hl1, hlen⟩ := readLenDet_ok h1
     obtain ⟨⟨xs, r2⟩, h2, h⟩ := bind_ok h
     try dsimp only at h
-    obtain ⟨hl2, hn, hs⟩ := decRepeat_ok (ih f N) len h2 (by omega)
+    obtain ⟨hl2, hn, hs⟩ := decRepeat_ok (ih f) len h2
     cases h
     refine ⟨by omega, ?_⟩
     rw [sumSize_nodes] at hs
-    simp only [KP, rewinds, Val.nodes]
+    simp only [KP, Val.nodes]
     have hm := seqOfMaxP_ge c
-    refine seqOf_arithP (c1 := r1.bs.length - r.bs.length)
-      (c2 := (align r0).bs.length - r1.bs.length) hP hs ?_ (by omega) (by omega)
+    refine Cost.seqOf_arith (c1 := r1.bs.length - r.bs.length)
+      (c2 := (align r0).bs.length - r1.bs.length) hs ?_ (by omega) (by omega)
     refine Nat.le_trans hlen (Nat.le_trans (Nat.mul_le_mul_right _ hm) (Nat.mul_le_mul_left _ (by omega)))
   · split
     · intro h
       obtain ⟨⟨xs, r1⟩, h1, h⟩ := bind_ok h
       try dsimp only at h
-      obtain ⟨hl1, hx, hs⟩ := decChunks_ok (ih f N) f h1 (by omega)
+      obtain ⟨hl1, hx, hs⟩ := decChunks_ok (ih f) f h1
       cases h
       refine ⟨by omega, ?_⟩
       rw [sumSize_nodes] at hs
-      simp only [KP, rewinds, Val.nodes]
+      simp only [KP, Val.nodes]
       have hm := seqOfMaxP_ge c
-      refine seqOf_arithP (c1 := (align r0).bs.length - r.bs.length)
-        (c2 := (align r0).bs.length - r.bs.length) hP hs ?_ (by omega) (by omega)
+      refine Cost.seqOf_arith (c1 := (align r0).bs.length - r.bs.length)
+        (c2 := (align r0).bs.length - r.bs.length) hs ?_ (by omega) (by omega)
       refine Nat.le_trans hx (Nat.le_trans (Nat.mul_le_mul_right _ hm) (Nat.mul_le_mul_left _ (by omega)))
     · rename_i w hsb
       intro h
@@ -346,13 +336,13 @@ theorem szp_sequenceOf (e : Ty) (c : SizeC) (ih : SzP e) : SzP (.sequenceOf e c)
       obtain ⟨hl1, hlen⟩ := readSize_ok h1
       obtain ⟨⟨xs, r2⟩, h2, h⟩ := bind_ok h
       try dsimp only at h
-      obtain ⟨hl2, hn, hs⟩ := decRepeat_ok (ih f N) len h2 (by omega)
+      obtain ⟨hl2, hn, hs⟩ := decRepeat_ok (ih f) len h2
       cases h
       refine ⟨by omega, ?_⟩
       rw [sumSize_nodes] at hs
-      simp only [KP, rewinds, Val.nodes]
+      simp only [KP, Val.nodes]
       have hm := seqOfMaxP_sized hsb
-      refine seqOf_arithP (c1 := r1.bs.length - r.bs.length) (c2 := 0) hP hs ?_ (by omega) (by omega)
+      refine Cost.seqOf_arith (c1 := r1.bs.length - r.bs.length) (c2 := 0) hs ?_ (by omega) (by omega)
       omega
 
 end Asn1.CostP
